@@ -180,6 +180,26 @@ pub fn run(ctx: &Ctx, rep: &mut Report) {
             }
         }
     }
+    // indices m * 2^s + j: a quotient / index truncated to 8, 16, 32 ... bits wraps back into range only for these
+    for s in [8u32, 16, 24, 32, 40, 48, 56] {
+        for m in 1..=255u64 {
+            if s == 56 && m > 255 {
+                continue;
+            }
+            for j in 0..64u64 {
+                let i = (m << s).wrapping_add(j);
+                acc.cases += 1;
+                acc.calls += 1;
+                let exp = if i < 52 { d[i as usize].word() } else { 0 };
+                if !matches!(guard(|| Deck::get(i as usize)), Ok(w) if w == exp) {
+                    match confirm(judge, Case::new("deck.get", &[i])) {
+                        Some(v) => acc.violate(v),
+                        None => super::unreproduced("C18 deck.get mismatch not reproduced"),
+                    }
+                }
+            }
+        }
+    }
     for i in [u64::MAX, u64::MAX - 1, 51, 52, 53] {
         acc.cases += 1;
         acc.calls += 1;
@@ -187,7 +207,14 @@ pub fn run(ctx: &Ctx, rep: &mut Report) {
             acc.violate(v);
         }
     }
-    rep.add_space(&format!("Deck::get(i) for every i < 2^{} and every 2^k - 1, 2^k, 2^k + 1 up to usize::MAX", if ctx.tier.thorough() { 32 } else { 28 }), &acc, t0, "in range => the deck card, at or past the end => blank");
+    rep.add_space(&format!("Deck::get(i) for every i < 2^{}, every 2^k - 1, 2^k, 2^k + 1 up to usize::MAX, and every m * 2^s + j (m < 256, s = 8,16,..,56, j < 64)", if ctx.tier.thorough() { 32 } else { 28 }), &acc, t0, "in range => the deck card, at or past the end => blank");
+    {
+        let mut items: Vec<Case> = [0u64, 1, 12, 13, 38, 50, 51, 52, 53, 255, 256, 257, 307, 65536 + 7, 1 << 32, u64::MAX].iter().map(|i| Case::new("deck.get", &[*i])).collect();
+        for t in 0..TABLES.len() as u64 {
+            items.push(Case::new("table", &[t]));
+        }
+        super::history2(rep, judge, &items);
+    }
     rep.rule = "distinct table entries and distinct indices; non-trivial = every table entry, and the indices around the deck's end and the powers of two".into();
     rep.bound = "tables complete; Deck::get on a complete low range plus all power-of-two neighbourhoods".into();
 }
